@@ -333,6 +333,53 @@ def check_same_object_again(v, case, scratch, i):
                 return
 
 
+def check_scoped_and_defaults(v, case, env, exp_calls, scratch, i):
+    """The same pipeline under update_scope('sc', '*', '*') (all names prefixed) with scalar roots supplied as
+    function defaults instead of inputs; mapped with scoped input names and scoped internal_shapes / storage keys."""
+    from pipefunc.map import load_outputs
+
+    inputs = mapgen.make_inputs(case)
+    dflt = {r: inputs[r] for r, spec in case["roots"].items() if spec["kind"] == "scalar"} if i % 2 else {}
+    extra = {}
+    for f in case["funcs"]:
+        d = {p: dflt[p] for p in f["params"] if p in dflt and p not in (f.get("bound") or {})}
+        if d:
+            extra[f["name"]] = {"defaults": d}
+    w = dict(case=mapgen.describe(case), scoped=True, defaults=sorted(dflt))
+    S = lambda n: tuple(f"sc.{x}" for x in n) if isinstance(n, tuple) else f"sc.{n}"  # noqa: E731
+    folder = os.path.join(scratch, "run-scoped")
+    try:
+        with quiet():
+            p = mapgen.build_pipeline(case, extra=extra)
+            p.update_scope("sc", "*", "*")
+            ish = mapgen.internal_shapes_arg(case)
+            st = storage_arg(case, "mix", i)
+            res = p.map({S(k): x for k, x in inputs.items() if k not in dflt}, run_folder=folder,
+                        internal_shapes=({S(k): x for k, x in ish.items()} if ish else None),
+                        storage={(S(k) if k != "" else k): x for k, x in st.items()}, parallel=False)
+    except Exception as e:  # noqa: BLE001
+        v.bad(exc_sig(e, "refused-map-scoped"), f"valid map of the scoped pipeline (defaults: {sorted(dflt)}) raised {exc_msg(e)}", **w)
+        return
+    v.count("scoped_runs")
+    if dflt:
+        v.count("runs_with_defaulted_roots")
+    for f in case["funcs"]:
+        for o in f["outs"]:
+            exp = probes.render(env[o])
+            if S(o) not in res or probes.render(res[S(o)].output) != exp:
+                v.bad("mismatch:result-scoped", f"{S(o)} differs from the denotation under a scope", expected=exp[:400],
+                      got=probes.render(res[S(o)].output)[:400] if S(o) in res else None, **w)
+                return
+            try:
+                with quiet():
+                    lo = probes.render(load_outputs(S(o), run_folder=folder))
+            except Exception as e:  # noqa: BLE001
+                lo = f"EXC {exc_msg(e)}"
+            if lo != exp:
+                v.bad("mismatch:load_outputs-scoped", f"load_outputs({S(o)}) differs from the denotation", got=lo[:400], expected=exp[:400], **w)
+                return
+
+
 def run_case(desc):
     case = get_case(desc)
     v = V()
@@ -347,6 +394,8 @@ def run_case(desc):
             check_repeat_after_fault(v, case, env, exp_calls, scratch, desc["i"])
         if ok and desc["kind"] == "gen" and desc["i"] % 3 == 1:
             check_same_object_again(v, case, scratch, desc["i"])
+        if ok and desc["kind"] == "gen" and desc["i"] % 3 == 2:
+            check_scoped_and_defaults(v, case, env, exp_calls, scratch, desc["i"])
     nt = mapgen.nontrivial(case)
     return v.result(evaluations=v.counters.get("runs", 0), key=mapgen.signature(case) if nt else None,
                     sample={"case": mapgen.describe(case), "storages": desc["storages"],
@@ -365,6 +414,8 @@ def finalize(agg, tier, seed):
             floors.append(f"structural class {c} hit only {agg.classes.get(c, 0)} times (< 10)")
     if agg.counters.get("second_runs_on_same_object", 0) < 200 or agg.counters.get("runs_with_a_None_valued_element", 0) < 50:
         floors.append("too few second runs on the same pipeline object / runs with a None-valued element")
+    if agg.counters.get("scoped_runs", 0) < 200 or agg.counters.get("runs_with_defaulted_roots", 0) < 20:
+        floors.append("too few scoped runs / runs with scalar roots supplied as defaults")
     if agg.classes.get("root_ndarray-int", 0) < 30:
         floors.append("fewer than 30 cases with a numeric input array")
     if agg.counters.get("first_runs_cut_short:unpicklable", 0) < 20 or agg.counters.get("first_runs_cut_short:raise", 0) < 50:
